@@ -197,6 +197,35 @@ func invalidate(rng *rand.Rand, op gen.GenOp) (gen.GenOp, string) {
 	return gen.GenOp{Query: "{ definitelyNotAField }"}, "unknown_field"
 }
 
+// the selected operation is valid and named; the defect sits elsewhere in the same document (a sibling operation, a
+// second operation of the same name, a fragment nothing uses, a cycle only the sibling spreads)
+var c10SiblingKinds = []string{"sibling_unknown_field", "duplicate_operation_name", "unused_fragment_unknown_type", "sibling_fragment_cycle", "sibling_unknown_argument", "unused_fragment"}
+
+func invalidateSibling(kind string, op gen.GenOp) (gen.GenOp, string) {
+	q, name := op.Query, op.OperationName
+	if name == "" {
+		name = "Selected"
+		if i := strings.IndexAny(q, " ({"); i > 0 {
+			q = q[:i] + " " + name + q[i:]
+		}
+	}
+	switch kind {
+	case "sibling_unknown_field":
+		q += " query SiblingBad { nosuch_sibling_field }"
+	case "duplicate_operation_name":
+		q += " query " + name + " { __typename }"
+	case "unused_fragment_unknown_type":
+		q += " query SiblingOk { __typename } fragment Lost on NoSuchType { id }"
+	case "sibling_fragment_cycle":
+		q += " query SiblingCyc { ...SCyc1 } fragment SCyc1 on Query { ...SCyc2 } fragment SCyc2 on Query { ...SCyc1 }"
+	case "sibling_unknown_argument":
+		q += " query SiblingArg { __typename @skip(if: true, bogus: 1) }"
+	case "unused_fragment":
+		q += " query SiblingOk2 { __typename } fragment NobodySpreadsMe on Query { __typename }"
+	}
+	return gen.GenOp{Query: q, Variables: op.Variables, OperationName: name}, kind
+}
+
 func driveC10(seed int64, tier, out, replay string) {
 	rng := hx.NewRand(seed)
 	obs := hx.NewObs("C10", seed, tier)
@@ -223,6 +252,10 @@ func driveC10(seed int64, tier, out, replay string) {
 					c.MaxBatch = 1 + (j/4)%2
 				}
 				cases = append(cases, c)
+			}
+			// deterministic per world (no draw from the main stream): defects outside the selected operation
+			for k, kind := range c10SiblingKinds {
+				cases = append(cases, c10Case{Mode: "invalid", WorldSeed: ws, OpSeed: ws + int64(1000+k), Mutation: kind})
 			}
 		}
 	}
@@ -265,7 +298,9 @@ func driveC10(seed int64, tier, out, replay string) {
 		}
 		if c.Mode == "invalid" {
 			bad, kind := op, c.Mutation
-			if c.Op == nil {
+			if c.Op == nil && c.Mutation != "" {
+				bad, kind = invalidateSibling(c.Mutation, op)
+			} else if c.Op == nil {
 				bad, kind = invalidate(hx.NewRand(c.OpSeed+1), op)
 			}
 			// is it really rejected by validation / operation selection?
@@ -370,7 +405,7 @@ func driveC10(seed int64, tier, out, replay string) {
 	}
 	obs.Evaluations = idx
 	obs.DistinctNontrivial = len(distinct)
-	obs.Rule = "component: scripted batch answers whose elements carry 1-3 GraphQL errors from a pool (paths with ints, nested extensions, absent/null extensions, locations, cased member names, equal messages with different paths) through the real MultiOpQueryer; invalid: valid generated operations mutated 8 ways (unknown field/type/argument, wrong variable type, fragment cycle, ambiguous, unknown operationName, syntax error), kept only if gqlparser/operation selection rejects them; service_errors: gateway with real MultiOpQueryers over an HTTP bridge, error payloads injected at 1-2 positions of one downstream batch"
+	obs.Rule = "component: scripted batch answers whose elements carry 1-3 GraphQL errors from a pool (paths with ints, nested extensions, absent/null extensions, locations, cased member names, equal messages with different paths) through the real MultiOpQueryer; invalid: valid generated operations mutated 8 ways (unknown field/type/argument, wrong variable type, fragment cycle, ambiguous, unknown operationName, syntax error) and, per world, 6 documents whose SELECTED operation is valid while a sibling operation / a second operation of the same name / an unused fragment / a cycle only the sibling spreads is not, kept only if gqlparser/operation selection rejects them; service_errors: gateway with real MultiOpQueryers over an HTTP bridge, error payloads injected at 1-2 positions of one downstream batch"
 	hx.WriteCases(out, "From Pebbles Require Import Base.Json Net.Decode Net.Faults Net.Errors Corr.C10.\nFrom Coq Require Import List String. Import ListNotations.\nOpen Scope string_scope.\n", "c10case", coq, "mismatches")
 	obs.Write(out)
 }
